@@ -10,6 +10,7 @@ import (
 	"mime/multipart"
 	"net/http"
 	"os"
+	"sort"
 	"strconv"
 	"strings"
 	"sync"
@@ -109,6 +110,30 @@ func newFuzzStore(sysName, state string, opts SysOpts, seed int64) (*fuzzStore, 
 			x.serveAddr(r)
 		}
 		put("bkt1", "d/k4", "a6")
+		// further reachable version histories (s3mem): every version deleted by id, archived ones first;
+		// a delete marker removed by id; a delete marker left current after the newer version was deleted
+		if sys.Versioned() {
+			delv := func(k, v string) {
+				if v != "" {
+					r := newReq("DELETE", "/bkt1/"+k)
+					r.Query.Set("versionId", v)
+					x.Serve(r)
+				}
+			}
+			putv := func(k, atom string) string {
+				return x.Do(Op{"op": "PutObject", "b": "bkt1", "k": fromBytes(k), "body": []interface{}{atom}, "meta": []interface{}{}}).Header.Get("x-amz-version-id")
+			}
+			v1, v2 := putv("k5", "a7"), putv("k5", "a8")
+			delv("k5", v1)
+			delv("k5", v2)
+			putv("k6", "a9")
+			m := x.Do(Op{"op": "DeleteObject", "b": "bkt1", "k": fromBytes("k6")}).Header.Get("x-amz-version-id")
+			delv("k6", m)
+			putv("k7", "a10")
+			x.Do(Op{"op": "DeleteObject", "b": "bkt1", "k": fromBytes("k7")})
+			v3 := putv("k7", "a11")
+			delv("k7", v3)
+		}
 		// pending uploads with gaps
 		r := newReq("POST", "/bkt1/k1")
 		r.Query.Set("uploads", "")
@@ -133,6 +158,13 @@ func newFuzzStore(sysName, state string, opts SysOpts, seed int64) (*fuzzStore, 
 		fs.vid = "3/60O30C1G60O30C1G60O30C1G60O30C1G60O30C1G60O30C1H03F9QN5V72K21OG="
 	}
 	fs.fp = fs.fingerprint()
+	if fs.fp == "!broken" {
+		return fs, fmt.Errorf("!prepared: the prepared store (a reachable state) panics or hangs on a plain listing/read")
+	}
+	if c := fs.canary(); c != "ok" {
+		return fs, fmt.Errorf("!prepared: correct requests fail on the prepared store: %s", c)
+	}
+	fs.fp = fs.fingerprint()
 	return fs, nil
 }
 
@@ -149,7 +181,14 @@ func (fs *fuzzStore) fingerprint() string {
 		fmt.Fprintf(&sb, "%d|%s|", o.Status, stripVolatile(o.Body))
 	}
 	o := fs.x.serveAddr(newReq("GET", "/"))
-	fmt.Fprintf(&sb, "%d|%s", o.Status, stripVolatile(o.Body))
+	var lb xBuckets
+	xml.Unmarshal(o.Body, &lb)
+	var names []string
+	for _, b := range lb.Buckets {
+		names = append(names, b.Name)
+	}
+	sort.Strings(names) // (s3mem lists buckets in map order)
+	fmt.Fprintf(&sb, "%d|%v", o.Status, names)
 	r := newReq("GET", "/bkt1/k1")
 	o = fs.x.serveAddr(r)
 	fmt.Fprintf(&sb, "|%d|%s", o.Status, md5hex(o.Body))
@@ -186,14 +225,29 @@ func (fs *fuzzStore) canary() string {
 		body := []byte("canary body " + b)
 		r := newReq("PUT", "/"+b+"/canary-key")
 		r.setBody(body)
-		if o := x.serveAddr(r); o.Status != 200 {
+		var vids []string
+		o := x.serveAddr(r)
+		if o.Status != 200 {
 			return fmt.Sprintf("put %s/canary-key -> %d %s timeout=%v panic=%v", b, o.Status, o.ErrCode(), o.Timeout, o.Panic != "")
 		}
+		vids = append(vids, o.Header.Get("x-amz-version-id"))
 		if o := x.serveAddr(newReq("GET", "/"+b+"/canary-key")); o.Status != 200 || !bytes.Equal(o.Body, body) {
 			return fmt.Sprintf("get %s/canary-key -> %d, %d bytes", b, o.Status, len(o.Body))
 		}
-		if o := x.serveAddr(newReq("DELETE", "/"+b+"/canary-key")); o.Status != 204 {
+		o = x.serveAddr(newReq("DELETE", "/"+b+"/canary-key"))
+		if o.Status != 204 {
 			return fmt.Sprintf("delete %s/canary-key -> %d", b, o.Status)
+		}
+		vids = append(vids, o.Header.Get("x-amz-version-id"))
+		// in a versioned bucket remove the canary's version and delete marker again
+		for _, v := range vids {
+			if v != "" {
+				rd := newReq("DELETE", "/"+b+"/canary-key")
+				rd.Query.Set("versionId", v)
+				if o := x.serveAddr(rd); o.Status != 204 {
+					return fmt.Sprintf("delete %s/canary-key?versionId -> %d", b, o.Status)
+				}
+			}
 		}
 		r2 := newReq("GET", "/"+b)
 		if o := x.serveAddr(r2); o.Status != 200 {
@@ -402,6 +456,7 @@ func cmdFuzzReq(args []string) {
 				ch := make(chan job, 64)
 				chans = append(chans, ch)
 				wg.Add(1)
+				slotNo := len(chans) - 1
 				go func(sysName, state string, ch chan job) {
 					defer wg.Done()
 					var st *fuzzStore
@@ -409,6 +464,18 @@ func cmdFuzzReq(args []string) {
 						if st == nil {
 							var err error
 							st, err = newFuzzStore(sysName, state, so, *seed)
+							if err != nil && strings.HasPrefix(err.Error(), "!prepared") {
+								// a reachable state in which the server no longer answers correct requests:
+								// an observation for TraceReq, not a harness problem
+								mu.Lock()
+								enc.Encode(&fObs{Sys: sysName, State: state, Req: fReq{Method: "SETUP", Path: "(prepared store)", Subs: []string{}},
+									St: 200, Body: "none", Canary: err.Error()})
+								total++
+								mu.Unlock()
+								for range ch {
+								}
+								return
+							}
 							if err != nil {
 								fmt.Fprintln(os.Stderr, "harness: cannot prepare store:", err)
 								os.Exit(2)
@@ -418,10 +485,15 @@ func cmdFuzzReq(args []string) {
 							mu.Unlock()
 						}
 						if pf != nil {
+							// one fixed-size slot per worker: the requests in flight when the process dies
 							b, _ := json.Marshal(fObs{Sys: sysName, State: state, Req: j.q})
-							mu.Lock()
-							pf.WriteAt(append(b, '\n', ' '), 0)
-							mu.Unlock()
+							slot := make([]byte, 4096)
+							for i := range slot {
+								slot[i] = ' '
+							}
+							copy(slot, b)
+							slot[4095] = '\n'
+							pf.WriteAt(slot, int64(slotNo)*4096)
 						}
 						ob := runFuzzOne(st, &j.q)
 						mu.Lock()
@@ -461,7 +533,7 @@ func cmdFuzzReq(args []string) {
 						}
 						// every (system, state) group gets the request; inside a group round-robin
 						for g := 0; g < len(chans)/nw; g++ {
-							chans[g*nw+idx%nw] <- job{q}
+							chans[g*nw+(idx / *every)%nw] <- job{q}
 						}
 					}
 				}
@@ -508,17 +580,20 @@ func runFuzzOne(st *fuzzStore, q *fReq) *fObs {
 			ob.Detail = short(o.Body)
 		}
 	}
-	ob.Canary = st.canary()
+	// (1) what the request itself did to the observable state
 	fp := st.fingerprint()
 	readOnly := q.Method == "GET" || q.Method == "HEAD" || q.Method == "OPTIONS"
-	if fp != st.fp {
-		if readOnly && ob.Canary == "ok" && !st.sys.Opts.Auto {
-			ob.Canary = "a read-only request changed the observable state of the store"
-		}
-		st.fp = "" // rebuild
+	changed := fp != st.fp
+	// (2) correct requests still work on the same and on another bucket
+	ob.Canary = st.canary()
+	if changed && readOnly && ob.Canary == "ok" && !st.sys.Opts.Auto {
+		ob.Canary = "a read-only request changed the observable state of the store"
 	}
-	if ob.Timeout || ob.Canary != "ok" {
-		st.fp = ""
+	if changed || ob.Timeout || ob.Canary != "ok" {
+		st.fp = "" // rebuild the prepared store for the next request
+	} else {
+		// the canary's own writes (versions, delete markers) become part of the baseline
+		st.fp = st.fingerprint()
 	}
 	return ob
 }
